@@ -258,7 +258,10 @@ def consume_and_check(vm, q, n, lower, upper, prefix, the=False):
     """Drive q._evaluate__() counting yields (ghost) and compare the outcome with the spec."""
     ctx = vm.ctx
     ctx.ghost["yielded"] = 0
-    gen = vm.call_method(q, "_evaluate__")
+    # the contract holds wherever the quantifier sits: evaluated by the user (no parent) or as an operand of an enclosing query
+    parent = None if ctx.choice(2, "evaluated-by") == 0 else vm.alloc(cls(vm, SYM, "SymbolicExpression"), {"_id_": 99, "_is_false_": False}, tag="enclosing-query")
+    ctx.inputs["nested"] = parent is not None
+    gen = vm.call(vm._getattr(q, "_evaluate__"), [], {"parent": parent})
 
     def y():
         v = ctx.ghost["yielded"]
